@@ -12,6 +12,30 @@ import subprocess
 import sys
 
 PROPS = ['C%02d' % i for i in range(1, 21) if i != 19]
+RELATED = {
+    'format_inspector.py': ['C01', 'C02', 'C03', 'C05', 'C06', 'C07'],
+    'cli.py': ['C02'], 'strutils.py': ['C04', 'C08', 'C10', 'C14', 'C16'],
+    'netutils.py': ['C11', 'C15'], 'timeutils.py': ['C12', 'C13', 'C09'],
+    'fixture.py': ['C12'], 'excutils.py': ['C09'],
+    'fileutils.py': ['C09', 'C20'], 'encodeutils.py': ['C16', 'C04'],
+    'versionutils.py': ['C17'], 'specs_matcher.py': ['C18'],
+    'uuidutils.py': ['C14'], 'qemu.py': ['C10'], 'units.py': ['C10', 'C05'],
+}
+ALL = '--all' in sys.argv
+SNAP = '/tmp/sweep/verif'
+
+
+def related(patch):
+    if ALL:
+        return PROPS
+    out = []
+    for line in open(patch):
+        if line.startswith('+++ '):
+            base = os.path.basename(line.split()[1])
+            for p in RELATED.get(base, PROPS):
+                if p not in out:
+                    out.append(p)
+    return out or PROPS
 
 
 def one(args):
@@ -30,10 +54,10 @@ def one(args):
         if r.returncode:
             return tag, {'error': 'patch does not apply: ' + r.stderr[-200:]}
         res = {}
-        env = dict(os.environ, SA_REPO=wt, SA_NOWRITE='1', SA_SERIAL='1')
-        for p in PROPS:
+        env = dict(os.environ, SA_REPO=wt, SA_NOWRITE='1')
+        for p in related(patch):
             c = subprocess.run(['/venv/bin/python', '-m', 'sa', 'check', p],
-                               cwd='/verif', env=env, capture_output=True,
+                               cwd=SNAP, env=env, capture_output=True,
                                text=True)
             first = [l for l in c.stdout.splitlines()
                      if l.startswith('  construct:')][:1]
@@ -46,15 +70,21 @@ def one(args):
 
 
 def main():
-    dirs = sys.argv[1:] or sorted(glob.glob('/verif/seeded/*'))
+    dirs = [a for a in sys.argv[1:] if not a.startswith('--')] or \
+        sorted(glob.glob('/verif/seeded/C*'))
     jobs = []
     for d in dirs:
         p = os.path.join(d, 'patch.diff')
         if os.path.exists(p):
             jobs.append((p, d.rstrip('/').replace('/', '_')[-24:]))
-    os.makedirs('/tmp/sweep', exist_ok=True)
+    shutil.rmtree('/tmp/sweep', ignore_errors=True)
+    os.makedirs(SNAP, exist_ok=True)
+    # analyse with a snapshot of the checker so that /verif can be edited
+    shutil.copytree('/verif/sa', SNAP + '/sa',
+                    ignore=shutil.ignore_patterns('__pycache__'))
+    shutil.copy('/verif/known_findings.json', SNAP)
     out = {}
-    with cf.ThreadPoolExecutor(8) as ex:
+    with cf.ThreadPoolExecutor(4) as ex:
         for tag, res in ex.map(one, jobs):
             out[tag] = res
             if 'error' in res:
@@ -65,8 +95,9 @@ def main():
             print('%-26s violations: %-22s undecided: %s' % (
                 tag, ','.join(hit) or '-', ','.join(und) or '-'))
             sys.stdout.flush()
-    json.dump(out, open('/tmp/sweep/result.json', 'w'), indent=1)
-    shutil.rmtree('/tmp/sweep', ignore_errors=True) if not out else None
+    dest = os.environ.get('SWEEP_OUT', '/tmp/sweep_result.json')
+    json.dump(out, open(dest, 'w'), indent=1)
+    shutil.rmtree('/tmp/sweep', ignore_errors=True)
 
 
 if __name__ == '__main__':
